@@ -904,6 +904,11 @@ func (p *Parser) parseJoin(stmt *SelectStatement) error {
 			if err != nil {
 				return err
 			}
+			// ON m.id = s.dev: the operand qualified with the table alias is the table
+			// side, whichever side of "=" it is written on.
+			if strings.HasPrefix(left, jc.Alias+".") && !strings.HasPrefix(right, jc.Alias+".") {
+				left, right = right, left
+			}
 			jc.OnPairs = append(jc.OnPairs, types.JoinOnPair{
 				StreamField: stripAliasPrefix(left, stmt.SourceAlias, jc.Alias),
 				TableField:  stripAliasPrefix(right, stmt.SourceAlias, jc.Alias),
